@@ -81,7 +81,7 @@ def repo_hash():
 
 
 def model_hash():
-    fs = tree_files(COQ, ['.'], {'.v'}) + tree_files(OCAML, ['driver.ml']) + tree_files(HARNESS, ['src', 'Cargo.toml']) \
+    fs = tree_files(COQ, ['.'], {'.v'}) + tree_files(OCAML, ['driver.ml', 'glue.ml']) + tree_files(HARNESS, ['src', 'Cargo.toml']) \
         + tree_files(os.path.join(VERIF, 'tools'), ['.'], {'.py'})
     return file_hash([f for f in fs if '/gen/' not in f])
 
@@ -157,7 +157,7 @@ def build_model_tools():
     rc, out = sh('timeout 600 coqc -Q ../coq PF -w -notation-overridden ../coq/Extract.v', cwd=OCAML, timeout=700)
     if rc != 0:
         raise Broken('extraction', out[-800:])
-    rc, out = sh('ocamlfind ocamlopt -O2 -w -a model.mli model.ml driver.ml -o driver', cwd=OCAML, timeout=600)
+    rc, out = sh('ocamlfind ocamlopt -O2 -w -a model.mli model.ml glue.ml driver.ml -o driver', cwd=OCAML, timeout=600)
     if rc != 0:
         raise Infra('ocaml build failed:\n' + out[-2000:])
     with open(stamp, 'w') as f:
@@ -281,6 +281,20 @@ def gen_cases(seed, tier, unsafe_share=True):
                 cases.append(spec('x%d' % k, v, 3, 6, RATES['1'], 0, 1, 1, ['boundary', 'stringlen', 'offbyone'],
                                   'bytes:' + (data.hex() or '-')))
                 k += 1
+    # directed: with range (1,1) the first choice byte selects the opcode (one byte per choice among
+    # <= 256 candidates; protocols >= 4 draw the FRAME coin first), the following bytes are the
+    # emitter's draws: boundary patterns for every argument encoder, with and without mutators
+    pats = ['', 'ff' * 40, '00' * 40, 'ffffff7f' + '00' * 12, '00000080' + 'ff' * 12, 'feffffff' * 4, 'ffffffff' + '7f' * 12,
+            '1f' + '5c' * 40, '1f' + '0a' * 40, '1f' + '27' * 40, '1f' + '41' * 40, '9f' + 'e5' * 60]
+    for v in range(6):
+        for ch in range(72):
+            for pi, pat in enumerate(pats):
+                if tier == 'quick' and (ch + pi + v) % 3 != 0:
+                    continue
+                for fb in (['00', '01'] if v >= 4 else ['']):
+                    muts = [] if pi % 2 == 0 else ['character', 'stringlen', 'boundary']
+                    cases.append(spec('d%d' % k, v, 1, 1, RATES['1'], 0, 1, 1, muts, 'bytes:' + fb + '%02x' % ch + pat))
+                    k += 1
     # memo-heavy: long runs at protocol 1/2/4 so that the memo exceeds 255 entries
     for i in range(12 if tier == 'quick' else 60):
         v = [1, 2, 4, 0, 5, 3][i % 6]
@@ -290,22 +304,28 @@ def gen_cases(seed, tier, unsafe_share=True):
     return cases
 
 
-# ----------------------------------------------------------------------------- suite S1
-def run_s1(seed, tier, log):
-    """returns dict(ok, diffs, props, stats, ncases); cached per (repo tree, model, seed, tier)"""
-    key = hashlib.sha256(('%s|%s|%d|%s|s1' % (repo_hash(), model_hash(), seed, tier)).encode()).hexdigest()[:24]
-    d = os.path.join(CACHE, key)
-    res_path = os.path.join(d, 's1.json')
-    if os.path.exists(res_path):
-        log('S1: cached result %s' % key)
-        return json.load(open(res_path))
-    os.makedirs(d, exist_ok=True)
+# ----------------------------------------------------------------------------- suites S1 + S2
+def corpus_cases():
     corpus = []
     cdir = os.path.join(VERIF, 'corpus')
     for f in sorted(os.listdir(cdir)) if os.path.isdir(cdir) else []:
         if f.endswith('.cases'):
             corpus += [l.strip() for l in open(os.path.join(cdir, f)) if l.strip() and not l.startswith('#')]
-    cases = corpus + gen_cases(seed, tier)
+    return corpus
+
+
+def run_s1(seed, tier, log):
+    """Runs the implementation (hooks on) over the case set and, on the recorded traces, the model:
+    S1 = step-wise membership in the envelope + property oracles, S2 = bit-exact level-F model.
+    returns dict(ok, diffs, props, stats, ncases, s2_ok, s2_diffs, notes); cached per (repo tree, model, seed, tier)"""
+    key = hashlib.sha256(('%s|%s|%d|%s|s1s2' % (repo_hash(), model_hash(), seed, tier)).encode()).hexdigest()[:24]
+    d = os.path.join(CACHE, key)
+    res_path = os.path.join(d, 's1.json')
+    if os.path.exists(res_path):
+        log('S1/S2: cached result %s' % key)
+        return json.load(open(res_path))
+    os.makedirs(d, exist_ok=True)
+    cases = corpus_cases() + gen_cases(seed, tier)
     cpath = os.path.join(d, 'cases.txt')
     with open(cpath, 'w') as f:
         f.write('\n'.join(cases) + '\n')
@@ -315,16 +335,16 @@ def run_s1(seed, tier, log):
         p = subprocess.run([HBIN, 'trace', cpath, '16'], stdout=f, stderr=subprocess.PIPE, env=ENV, timeout=3000)
     if p.returncode != 0:
         raise Infra('harness trace failed: %s' % p.stderr.decode()[-2000:])
-    log('S1: harness ran %d cases in %.1fs' % (len(cases), time.time() - t0))
+    log('S1/S2: harness ran %d cases in %.1fs' % (len(cases), time.time() - t0))
     t0 = time.time()
-    # shard the trace over 16 driver processes
     shards = shard_trace(tpath, 16)
-    procs = [subprocess.Popen([DRIVER, 's1', s], stdout=subprocess.PIPE, stderr=subprocess.STDOUT, text=True) for s in shards]
+    procs = [subprocess.Popen([DRIVER, mode, s], stdout=subprocess.PIPE, stderr=subprocess.STDOUT, text=True, env=ENV)
+             for mode in ('s1', 's2') for s in shards]
     outs = [p.communicate(timeout=3000)[0] for p in procs]
     for p, o in zip(procs, outs):
         if p.returncode != 0:
             raise Infra('driver failed: %s' % o[-2000:])
-    log('S1: model checked the traces in %.1fs' % (time.time() - t0))
+    log('S1/S2: model checked the traces in %.1fs' % (time.time() - t0))
     res = parse_verdicts('\n'.join(outs))
     res['ncases'] = len(cases)
     res['cases_path'] = cpath
@@ -336,6 +356,177 @@ def run_s1(seed, tier, log):
     json.dump(res, open(res_path, 'w'))
     prune_cache()
     return res
+
+
+
+# ----------------------------------------------------------------------------- suites S3 (direct calls) and S5 (histories)
+GRID = [0, 1, 2, 3, 5, 94, 95, 255, 256, 257, 1000, 65535, 65536, 65537, 2**31 - 1, 2**31, 2**32 - 1, 2**32, 2**32 + 1,
+        2**63, 2**64 - 2, 2**64 - 1]
+MUT_NAMES = ['bitflip', 'boundary', 'offbyone', 'stringlen', 'character', 'memoindex.0', 'memoindex.1', 'typeconf.0', 'typeconf.1']
+I32S = [0, 1, 0xFFFFFFFF, 0x7FFFFFFF, 0x80000000, 0x80000001, 0x7FFFFFFE, 5, 0xAAAAAAAA]
+I64S = [0, 1, 2**64 - 1, 2**63 - 1, 2**63, 2**63 + 1, 2**63 - 2, 12345678901234]
+F64S = ['0', '3ff0000000000000', '7ff8000000000000', '7ff0000000000000', 'bff0000000000000', '4059000000000000']
+STRS = ['', '61', '616263', 'c3a9e282acf09f9880', '5c27220a', '41' * 64, 'e282ac' * 20, 'f09f9880' * 5 + '7a']
+BYTS = ['', '00', 'ff', '000102', 'ff' * 64, '5c0a27' * 10, '80' * 33]
+MEMOS = [0, 1, 2, 255, 256, 999, 1000, 2**32, 2**64 - 2, 2**64 - 1]
+DELTAS = ['', '4e', '4a01020304', '28', '8c0568656c6c6f', '5d', '7d', '29', '88', '89', '47' + '00' * 8, '49310a', '2e', '90', '8f', '91', '95',
+          '85', '86', '87', '64', '6c', '74', '43026162', '8e' + '00' * 8, '54' + '00' * 4, '55016f', '58' + '00' * 4, '8d' + '00' * 8, '5631320a',
+          '532761270a', '46312e350a', '4c354c0a', '8a0105', '8b0100000005', '4b07', '4d0700', '42' + '00' * 4]
+
+
+def s3_ops_pool():
+    ops = ['u8', 'u16', 'u32', 'i32', 'i64', 'f64', 'bool', 'sm', 'ac', 'by:0', 'by:1', 'by:3', 'by:4', 'by:5', 'by:9', 'by:21']
+    ops += ['ci:%x' % n for n in GRID]
+    ops += ['gr:%x:%x' % (a, b) for a in GRID for b in GRID]
+    for m in MUT_NAMES:
+        ops += ['mi:%s:%x' % (m, v) for v in I32S]
+        ops += ['ml:%s:%x' % (m, v) for v in I64S]
+        ops += ['mf:%s:%s' % (m, v) for v in F64S]
+        ops += ['ms:%s:%s' % (m, v or '-') for v in STRS]
+        ops += ['mb:%s:%s' % (m, v or '-') for v in BYTS]
+        ops += ['mm:%s:%x' % (m, v) for v in MEMOS]
+        ops += ['pp:%s:%s:%s' % (m, d or '-', pre) for d in DELTAS for pre in ('-', '8002')]
+    return ops
+
+
+def gen_s3_cases(seed, tier):
+    rng = SplitMix64(seed ^ 0x5333)
+    pool = s3_ops_pool()
+    rates = ['0', '8000000000000000', '3ff0000000000000', '3fe0000000000000', '3fb999999999999a', '7ff8000000000000',
+             'bff0000000000000', '4000000000000000', '1', '3fefffffffffffff', '7ff0000000000000']
+    srcs = ['bytes:-'] + ['bytes:%02x' % b for b in range(256)]
+    if tier == 'thorough':
+        srcs += ['bytes:%04x' % b for b in range(65536)]
+    nrand = 500 if tier == 'quick' else 4000
+    for _ in range(nrand):
+        style = rng.below(4)
+        n = 2 + rng.below(15) if style else 2 + rng.below(60)
+        if style == 1:
+            data = bytes([rng.choice([0, 0xff, 0x7f, 0x80, 1])]) * n
+        else:
+            data = rng.bytes(n)
+        srcs.append('bytes:' + data.hex())
+    srcs += ['seed:%d' % rng.below(1 << 40) for _ in range(60 if tier == 'quick' else 600)]
+    cases, k, pi = [], 0, 0
+    nops = 10
+    # systematic sweep: every op of the pool is the FIRST op of some case for each of a few source shapes
+    # (so that it runs on a full source), and appears later in sequences (so that it runs on an exhausted one)
+    heads = ['bytes:-', 'bytes:ff', 'bytes:' + 'ff' * 40, 'bytes:' + '00' * 40, 'bytes:0102030405060708090a0b0c0d0e0f101112131415161718191a1b1c1d1e1f',
+             'bytes:fffffffffffffffffe', 'seed:7', 'seed:123456789']
+    for op in pool:
+        for h in (heads if tier == 'thorough' else heads[:1] + [heads[(pi % 7) + 1]]):
+            rate = rates[pi % len(rates)] if op[0] in 'mp' and op[:2] != 'by' else rates[2]
+            ops = [op] + [pool[(pi * 7 + j * 13) % len(pool)] for j in range(1, 4)]
+            cases.append('id=a%d rate=%s src=%s ops=%s' % (k, rate, h, ';'.join(ops)))
+            k += 1
+        pi += 1
+    for sidx, src in enumerate(srcs):
+        ops = [pool[rng.below(len(pool))] for _ in range(nops)]
+        cases.append('id=a%d rate=%s src=%s ops=%s' % (k, rates[rng.below(len(rates))], src, ';'.join(ops)))
+        k += 1
+    return cases
+
+
+def gen_s5_cases(seed, tier):
+    rng = SplitMix64(seed ^ 0x5555)
+    cases, k = [], 0
+    n = 400 if tier == 'quick' else 4000
+
+    def call():
+        r = rng.below(10)
+        if r < 5:
+            return 'b:' + (rand_bytes(rng, 40 if rng.below(3) else 400).hex() or '-')
+        if r < 8:
+            return 's:%d' % rng.below(1 << 32)
+        return 'r'
+    for i in range(n):
+        v = i % 6
+        mn, mx = rng.choice([(60, 300), (5, 9), (1, 1), (0, 0), (3, 2), (20, 40), (2, 4)])
+        muts = [] if rng.below(3) == 0 else [m for m in SAFE_MUTS if rng.below(3) == 0]
+        unsafe = 0
+        if rng.below(6) == 0:
+            unsafe = 1
+            muts = muts + [rng.choice(UNSAFE_MUTS)]
+        rate = RATES[rng.choice(['0.5', '1', '0.1'])]
+        shape = rng.below(8)
+        x = 'b:' + (rand_bytes(rng, 30).hex() or '-')
+        if shape == 0:
+            hist = [x, x]
+        elif shape == 1:
+            hist = [x, 's:%d' % rng.below(1 << 32), x]
+        elif shape == 2:
+            hist = ['b:-', 'b:-', x] if rng.below(2) else ['b:-', x, 'b:-']
+        elif shape == 3:
+            hist = [x, x, x, 'r', x]
+        else:
+            hist = [call() for _ in range(1 + rng.below(6))]
+            if hist[-1] == 'r':
+                hist.append(call() if rng.below(2) else x)
+            if hist[-1] == 'r':
+                hist[-1] = x
+        cases.append('%s hist=%s' % (spec('h%d' % k, v, mn, mx, rate, unsafe, int(rng.below(3) == 0), int(rng.below(3) == 0), muts, 'none'),
+                                     ';'.join(hist)))
+        k += 1
+    return cases
+
+
+def run_lines_suite(name, mode_h, mode_d, cases, seed, tier, log):
+    """generic: harness <mode_h> cases -> driver <mode_d>; cached"""
+    key = hashlib.sha256(('%s|%s|%d|%s|%s' % (repo_hash(), model_hash(), seed, tier, name)).encode()).hexdigest()[:24]
+    d = os.path.join(CACHE, key)
+    res_path = os.path.join(d, name + '.json')
+    if os.path.exists(res_path):
+        log('%s: cached result %s' % (name, key))
+        return json.load(open(res_path))
+    os.makedirs(d, exist_ok=True)
+    cpath = os.path.join(d, 'cases.txt')
+    with open(cpath, 'w') as f:
+        f.write('\n'.join(cases) + '\n')
+    tpath = os.path.join(d, 'trace.txt')
+    t0 = time.time()
+    with open(tpath, 'w') as f:
+        p = subprocess.run([HBIN, mode_h, cpath], stdout=f, stderr=subprocess.PIPE, env=ENV, timeout=3000)
+    if p.returncode != 0:
+        raise Infra('harness %s failed: %s' % (mode_h, p.stderr.decode()[-2000:]))
+    shards = shard_trace(tpath, 16)
+    procs = [subprocess.Popen([DRIVER, mode_d, s], stdout=subprocess.PIPE, stderr=subprocess.STDOUT, text=True, env=ENV) for s in shards]
+    outs = [p.communicate(timeout=3000)[0] for p in procs]
+    for p, o in zip(procs, outs):
+        if p.returncode != 0:
+            raise Infra('driver failed: %s' % o[-2000:])
+    text = '\n'.join(outs)
+    res = parse_verdicts(text)
+    res['okn'] = sum(1 for l in text.splitlines() if l.startswith('OK'))
+    res['nops'] = sum(int(m.group(1)) for m in re.finditer(r'^OK\d \S+ (?:ops|calls)=(\d+)', text, re.M))
+    res['ncases'] = len(cases)
+    res['specs'] = {c.split()[0][3:]: c for c in cases}
+    res['samples'] = cases[:2] + cases[-1:]
+    for s_ in shards:
+        os.remove(s_)
+    os.remove(tpath)
+    json.dump(res, open(res_path, 'w'))
+    log('%s: %d cases, %d agree, %d disagreements, %d oracle failures in %.1fs' % (
+        name, len(cases), res['okn'], len(res['diffs']), len(res['props']), time.time() - t0))
+    prune_cache()
+    return res
+
+
+def run_s3(seed, tier, log):
+    return run_lines_suite('s3', 'adapt', 's3', gen_s3_cases(seed, tier), seed, tier, log)
+
+
+def run_s5(seed, tier, log):
+    cases = [l for l in corpus_lines('hist')] + gen_s5_cases(seed, tier)
+    return run_lines_suite('s5', 'hist', 's5', cases, seed, tier, log)
+
+
+def corpus_lines(ext):
+    out = []
+    cdir = os.path.join(VERIF, 'corpus')
+    for f in sorted(os.listdir(cdir)) if os.path.isdir(cdir) else []:
+        if f.endswith('.' + ext):
+            out += [l.strip() for l in open(os.path.join(cdir, f)) if l.strip() and not l.startswith('#')]
+    return out
 
 
 def shard_trace(tpath, n):
@@ -352,11 +543,15 @@ def shard_trace(tpath, n):
 
 
 def parse_verdicts(text):
-    ok, diffs, props, stats = [], [], [], {}
+    ok, diffs, props, stats, ok2, notes = [], [], [], {}, [], []
     for l in text.splitlines():
         w = l.split(' ', 3)
         if w[0] == 'OK':
             ok.append(w[1])
+        elif w[0] == 'OK2':
+            ok2.append(w[1])
+        elif w[0] == 'NOTE':
+            notes.append(l)
         elif w[0] == 'DIFF':
             diffs.append({'id': w[1], 'step': w[2], 'what': w[3] if len(w) > 3 else ''})
         elif w[0] == 'PROP':
@@ -364,12 +559,12 @@ def parse_verdicts(text):
             props.append({'id': rest[1], 'prop': rest[2], 'detail': rest[4] if len(rest) > 4 else ''})
         elif w[0] == 'STAT':
             stats[w[1]] = dict(x.split('=') for x in l.split()[2:])
-    return {'ok': ok, 'diffs': diffs, 'props': props, 'stats': stats}
+    return {'ok': ok, 'diffs': diffs, 'props': props, 'stats': stats, 's2_ok': ok2, 'notes': notes}
 
 
-def prune_cache(keep=6):
+def prune_cache(keep=8):
     if not os.path.isdir(CACHE):
         return
-    ds = sorted((os.path.getmtime(os.path.join(CACHE, x)), x) for x in os.listdir(CACHE))
+    ds = sorted((os.path.getmtime(os.path.join(CACHE, x)), x) for x in os.listdir(CACHE) if re.fullmatch(r'[0-9a-f]{24}', x))
     for _, x in ds[:-keep]:
         shutil.rmtree(os.path.join(CACHE, x), ignore_errors=True)
